@@ -38,7 +38,7 @@ def split_host_port(
         # urlparse() and urlsplit() insists on absolute URLs starting with "//".
         url = urlparse(f"//{hostport}")
         host = url.hostname if url.hostname else url.netloc
-        port = url.port if url.port else default_port
+        port = url.port if url.port is not None else default_port
     return host, port
 
 
